@@ -287,7 +287,7 @@ class Batch(object):
         per_class = self.jobs // HASH_CLASSES
         workers = [Worker(c) for c in range(HASH_CLASSES) for _ in range(per_class)]
         # pending chunks per hash class, in run order
-        chunk = self.chunk or max(1, min(200, self.n_runs // (self.jobs * 8) or 1))
+        chunk = self.chunk or max(1, min(100, self.n_runs // (self.jobs * 8) or 1))
         pending = {c: [] for c in range(HASH_CLASSES)}
         for c in range(HASH_CLASSES):
             runs = list(range(c, self.n_runs, HASH_CLASSES))
@@ -303,10 +303,10 @@ class Batch(object):
                 if self._dispatch(w, pending):
                     active += 1
             while active:
-                events = sel.select(timeout=CHILD_WALL_GUARD_S * 3)
+                events = sel.select(timeout=CHILD_WALL_GUARD_S * 15)
                 if not events:
                     self.harness_errors.append("no worker progress for %ds" %
-                                               (CHILD_WALL_GUARD_S * 3))
+                                               (CHILD_WALL_GUARD_S * 15))
                     break
                 for key, _ in events:
                     w = key.data
